@@ -1672,3 +1672,247 @@ Proof.
     - rewrite Htl. cbn [bind]. eauto. }
   apply Hgen; [lia | exact Hall].
 Qed.
+
+(* ------------------------------------------------------------------ labeled-unicast and VPN NLRI *)
+Lemma be24_rd24 n : n < 16777216 ->
+  ((n / 65536) mod 256 * 256 + (n / 256) mod 256) * 256 + n mod 256 = n.
+Proof.
+  intros H.
+  rewrite (N.mod_small (n / 65536)) by (apply N.div_lt_upper_bound; lia).
+  pose proof (N.div_mod n 256 ltac:(lia)) as H0.
+  pose proof (N.div_mod (n / 256) 256 ltac:(lia)) as H1.
+  replace (n / 256 / 256) with (n / 65536) in H1 by (rewrite N.div_div by lia; reflexivity).
+  lia.
+Qed.
+
+Lemma mod2_of_mod256 n : (n mod 256) mod 2 = n mod 2.
+Proof.
+  rewrite (N.div_mod n 256) at 2 by lia.
+  replace (256 * (n / 256) + n mod 256) with (n mod 256 + (128 * (n / 256)) * 2) by lia.
+  rewrite N.mod_add by lia. reflexivity.
+Qed.
+
+Lemma enc_label_read v bos :
+  v < 1048576 ->
+  exists b0 b1 b2, enc_label v bos = [b0; b1; b2] /\
+    ((b0 * 256 + b1) * 256 + b2) / 16 = v /\ (b2 mod 2 =? 1) = bos.
+Proof.
+  intros Hv. unfold enc_label. set (raw := v * 16 + (if bos then 1 else 0)).
+  assert (Hraw : raw < 16777216) by (subst raw; destruct bos; lia).
+  eexists. eexists. eexists. split; [reflexivity|].
+  rewrite (be24_rd24 raw Hraw). split.
+  - subst raw. rewrite N.add_comm, N.div_add by lia. destruct bos; cbn; lia.
+  - rewrite mod2_of_mod256. subst raw. rewrite N.add_comm.
+    replace (v * 16) with ((v * 8) * 2) by lia. rewrite N.mod_add by lia. destruct bos; reflexivity.
+Qed.
+
+Lemma enc_labels_length ls : length (enc_labels ls) = (3 * length ls)%nat.
+Proof.
+  induction ls as [|v ls IH]; [reflexivity|]. destruct ls as [|v' t]; [reflexivity|].
+  change (enc_labels (v :: v' :: t)) with (enc_label v false ++ enc_labels (v' :: t)).
+  rewrite app_length, IH. cbn [length enc_label]. lia.
+Qed.
+
+Lemma read_labels_enc ls : forall rest fuel,
+  ls <> [] -> Forall (fun v => v < 1048576) ls -> (length ls <= fuel)%nat ->
+  read_labels fuel (enc_labels ls ++ rest) = Some (ls, rest).
+Proof.
+  induction ls as [|v ls IH]; intros rest fuel Hne Hall Hfuel; [congruence|].
+  inversion Hall as [|? ? Hv Hls]; subst.
+  destruct fuel as [|k]; [cbn in Hfuel; lia|].
+  destruct ls as [|v' t].
+  - cbn [enc_labels]. destruct (enc_label_read v true Hv) as [b0 [b1 [b2 [He [Hval Hbos]]]]].
+    rewrite He. cbn [app read_labels]. rewrite Hval, Hbos. reflexivity.
+  - change (enc_labels (v :: v' :: t)) with (enc_label v false ++ enc_labels (v' :: t)).
+    destruct (enc_label_read v false Hv) as [b0 [b1 [b2 [He [Hval Hbos]]]]].
+    rewrite He. cbn [app read_labels]. rewrite Hval, Hbos.
+    rewrite IH; [reflexivity | discriminate | assumption | cbn [length] in *; lia].
+Qed.
+
+Definition lprefix_bytes (ap vpn : bool) (x : lprefix) : list N :=
+  (if ap then be32 (lp_pid x) else []) ++
+  (24 * blen (lp_labels x) + (if vpn then 64 else 0) + lp_mask x) :: enc_labels (lp_labels x) ++ lp_rd x ++ lp_octets x.
+
+Definition lprefix_ok (ap vpn : bool) (maxbits : N) (x : lprefix) : Prop :=
+  lp_labels x <> [] /\ Forall (fun v => v < 1048576) (lp_labels x) /\
+  blen (lp_rd x) = (if vpn then 8 else 0) /\
+  lp_mask x <= maxbits /\ blen (lp_octets x) = (lp_mask x + 7) / 8 /\
+  (if ap then lp_pid x < 4294967296 else lp_pid x = 0).
+
+Lemma read_lprefixes_nil fuel ap vpn mb : read_lprefixes fuel ap vpn mb [] = Some [].
+Proof. destruct fuel; reflexivity. Qed.
+
+Lemma read_lprefixes_cons ap vpn mb x rest fuel :
+  lprefix_ok ap vpn mb x -> (length (lprefix_bytes ap vpn x ++ rest) <= fuel)%nat ->
+  read_lprefixes fuel ap vpn mb (lprefix_bytes ap vpn x ++ rest) =
+  match read_lprefixes (pred fuel) ap vpn mb rest with Some t => Some (x :: t) | None => None end.
+Proof.
+  destruct x as [pid ls rd m o]. unfold lprefix_ok, lprefix_bytes. cbn [lp_pid lp_labels lp_rd lp_mask lp_octets].
+  intros [Hne [Hls [Hrd [Hm [Ho Hp]]]]] Hfuel.
+  destruct fuel as [|k]; [destruct ap; cbn in Hfuel; lia|]. cbn [pred].
+  set (fixed := 24 * blen ls + (if vpn then 64 else 0)).
+  assert (Hstep : forall pid',
+    (if ap then pid' = pid else pid' = 0 /\ pid = 0) ->
+    match read_labels (length (enc_labels ls ++ rd ++ o ++ rest)) (enc_labels ls ++ rd ++ o ++ rest) with
+    | Some (ls0, r1) =>
+        match (if vpn then take 8 r1 else Some ([], r1)) with
+        | Some (rd0, r2) =>
+            if (24 * blen ls0 + (if vpn then 64 else 0) <=? fixed + m) &&
+               (fixed + m - (24 * blen ls0 + (if vpn then 64 else 0)) <=? mb)
+            then match take ((fixed + m - (24 * blen ls0 + (if vpn then 64 else 0)) + 7) / 8) r2 with
+                 | Some (o0, r3) =>
+                     match read_lprefixes k ap vpn mb r3 with
+                     | Some t => Some ({| lp_pid := pid'; lp_labels := ls0; lp_rd := rd0;
+                                          lp_mask := fixed + m - (24 * blen ls0 + (if vpn then 64 else 0)); lp_octets := o0 |} :: t)
+                     | None => None
+                     end
+                 | None => None
+                 end
+            else None
+        | None => None
+        end
+    | None => None
+    end =
+    match read_lprefixes k ap vpn mb rest with
+    | Some t => Some ({| lp_pid := pid; lp_labels := ls; lp_rd := rd; lp_mask := m; lp_octets := o |} :: t)
+    | None => None
+    end).
+  { intros pid' Hpid.
+    rewrite read_labels_enc; [| assumption | assumption |].
+    2:{ rewrite app_length, enc_labels_length. lia. }
+    assert (Hrd2 : (if vpn then take 8 (rd ++ o ++ rest) else Some ([], rd ++ o ++ rest)) = Some (rd, o ++ rest)).
+    { destruct vpn.
+      - rewrite <- Hrd. apply take_app.
+      - destruct rd; [reflexivity | cbn in Hrd; lia]. }
+    rewrite Hrd2. fold fixed.
+    replace (fixed <=? fixed + m) with true by (symmetry; apply N.leb_le; lia).
+    replace (fixed + m - fixed) with m by lia.
+    replace (m <=? mb) with true by (symmetry; apply N.leb_le; exact Hm).
+    cbn [andb]. rewrite <- Ho, take_app.
+    assert (Hpp : pid' = pid) by (destruct ap; [exact Hpid | destruct Hpid; congruence]).
+    rewrite Hpp. reflexivity. }
+  destruct ap.
+  - unfold be32. cbn [app read_lprefixes]. rewrite be32_rd32 by exact Hp.
+    rewrite <- !app_assoc. apply Hstep. reflexivity.
+  - cbn [app read_lprefixes]. rewrite <- !app_assoc. apply Hstep. split; [reflexivity | exact Hp].
+Qed.
+
+Lemma lprefix_bytes_length ap vpn x : (1 <= length (lprefix_bytes ap vpn x))%nat.
+Proof. unfold lprefix_bytes. rewrite app_length. cbn [length]. lia. Qed.
+
+Lemma read_lprefixes_concat ap vpn mb xs : forall fuel,
+  Forall (lprefix_ok ap vpn mb) xs -> (length (concat (map (lprefix_bytes ap vpn) xs)) <= fuel)%nat ->
+  read_lprefixes fuel ap vpn mb (concat (map (lprefix_bytes ap vpn) xs)) = Some xs.
+Proof.
+  induction xs as [|x xs IH]; intros fuel Hok Hfuel; cbn [map concat].
+  - apply read_lprefixes_nil.
+  - inversion Hok; subst. cbn [map concat] in Hfuel.
+    rewrite read_lprefixes_cons by assumption.
+    rewrite IH; [reflexivity | assumption |].
+    rewrite app_length in Hfuel. pose proof (lprefix_bytes_length ap vpn x). lia.
+Qed.
+
+Lemma labels_len_blen ls : labels_len ls = 3 * blen ls.
+Proof. reflexivity. Qed.
+
+Lemma enc_labeled p ap vpn mb e b :
+  labeled vpn mb e -> enc_pnlri p ap false e = Ok b ->
+  b = lprefix_bytes ap vpn (canon_lprefix ap e) /\ lprefix_ok ap vpn mb (canon_lprefix ap e).
+Proof.
+  destruct e as [pid n]. unfold labeled, enc_pnlri, canon_lprefix. cbn [fst snd].
+  intros [Hpid Hn] H.
+  assert (Hoct : forall m a, (m + 7) / 8 <= blen a -> prefix_octets m a = Ok (sig_octets m a)).
+  { intros m a Ha. unfold prefix_octets, div_ceil8. change (len a) with (blen a).
+    replace ((m + 7) / 8 <=? blen a) with true by (symmetry; apply N.leb_le; exact Ha). reflexivity. }
+  assert (Hlab : forall ls m a, vpn = false /\ ls <> [] /\ Forall (fun v => v < 1048576) ls /\
+            m <= mb /\ 24 * blen ls + m < 256 /\ (m + 7) / 8 <= blen a ->
+            (b0 <- (bits <- add8 p (trunc8 (labels_len ls * 8)) m;; o <- prefix_octets m a;; Ok (bits :: enc_labels ls ++ o));;
+             Ok ((if ap then be32 pid else []) ++ b0)) = Ok b ->
+            b = lprefix_bytes ap vpn {| lp_pid := if ap then pid else 0; lp_labels := ls; lp_rd := []; lp_mask := m; lp_octets := sig_octets m a |} /\
+            lprefix_ok ap vpn mb {| lp_pid := if ap then pid else 0; lp_labels := ls; lp_rd := []; lp_mask := m; lp_octets := sig_octets m a |}).
+  { intros ls m a [Hv [Hne [Hls [Hm [Hbits Ha]]]]] Hb. subst vpn.
+    rewrite labels_len_blen in Hb. rewrite trunc8_small in Hb by lia.
+    unfold add8, wrapping in Hb. replace (3 * blen ls * 8 + m <? 256) with true in Hb by (symmetry; apply N.ltb_lt; lia).
+    cbn [bind] in Hb. rewrite (Hoct m a Ha) in Hb. cbn [bind] in Hb. apply Ok_inj in Hb. subst b.
+    unfold lprefix_bytes, lprefix_ok. cbn [lp_pid lp_labels lp_rd lp_mask lp_octets].
+    split.
+    - replace (24 * blen ls + 0 + m) with (3 * blen ls * 8 + m) by lia. destruct ap; reflexivity.
+    - split; [assumption|]. split; [assumption|]. split; [reflexivity|]. split; [assumption|].
+      split; [apply sig_octets_blen; assumption|]. destruct ap; [assumption | reflexivity]. }
+  assert (Hvp : forall ls rd m a, vpn = true /\ ls <> [] /\ Forall (fun v => v < 1048576) ls /\ blen rd = 8 /\
+            m <= mb /\ 24 * blen ls + 64 + m < 256 /\ (m + 7) / 8 <= blen a ->
+            (b0 <- (x <- add8 p (trunc8 (labels_len ls * 8)) 64;; bits <- add8 p x m;; o <- prefix_octets m a;;
+                    Ok (bits :: enc_labels ls ++ rd ++ o));;
+             Ok ((if ap then be32 pid else []) ++ b0)) = Ok b ->
+            b = lprefix_bytes ap vpn {| lp_pid := if ap then pid else 0; lp_labels := ls; lp_rd := rd; lp_mask := m; lp_octets := sig_octets m a |} /\
+            lprefix_ok ap vpn mb {| lp_pid := if ap then pid else 0; lp_labels := ls; lp_rd := rd; lp_mask := m; lp_octets := sig_octets m a |}).
+  { intros ls rd m a [Hv [Hne [Hls [Hrd [Hm [Hbits Ha]]]]]] Hb. subst vpn.
+    rewrite labels_len_blen in Hb. rewrite trunc8_small in Hb by lia.
+    unfold add8, wrapping in Hb. replace (3 * blen ls * 8 + 64 <? 256) with true in Hb by (symmetry; apply N.ltb_lt; lia).
+    cbn [bind] in Hb. replace (3 * blen ls * 8 + 64 + m <? 256) with true in Hb by (symmetry; apply N.ltb_lt; lia).
+    cbn [bind] in Hb. rewrite (Hoct m a Ha) in Hb. cbn [bind] in Hb. apply Ok_inj in Hb. subst b.
+    unfold lprefix_bytes, lprefix_ok. cbn [lp_pid lp_labels lp_rd lp_mask lp_octets].
+    split.
+    - replace (24 * blen ls + 64 + m) with (3 * blen ls * 8 + 64 + m) by lia. destruct ap; reflexivity.
+    - split; [assumption|]. split; [assumption|]. split; [assumption|]. split; [assumption|].
+      split; [apply sig_octets_blen; assumption|]. destruct ap; [assumption | reflexivity]. }
+  destruct n; try contradiction; cbn [enc_nlri] in H; first [apply Hlab; assumption | apply Hvp; assumption].
+Qed.
+
+Lemma enc_labeled_all p ap vpn mb es : forall bs,
+  Forall (labeled vpn mb) es -> Forall2 (fun e b => enc_pnlri p ap false e = Ok b) es bs ->
+  concat bs = concat (map (lprefix_bytes ap vpn) (map (canon_lprefix ap) es)) /\
+  Forall (lprefix_ok ap vpn mb) (map (canon_lprefix ap) es).
+Proof.
+  induction es as [|e es IH]; intros bs Hp HF; inversion HF as [|? y ? l' He Hes]; subst.
+  - split; [reflexivity | constructor].
+  - inversion Hp as [|? ? Hpe Hpes]; subst. destruct (enc_labeled _ _ _ _ _ _ Hpe He) as [-> Hok].
+    destruct (IH _ Hpes Hes) as [Hc Hoks]. cbn [map concat]. rewrite Hc. split; [reflexivity|].
+    constructor; assumption.
+Qed.
+
+(* C04: a Reach of labeled-unicast or VPN entries is read back entry for entry: path id, label
+   stack, route distinguisher, prefix *)
+Theorem C04_decode_encode_routes_labeled :
+  forall (p : profile) (c : codec) (f : N) (vpn : bool) (nh : option (list N)) (attrs : list attr)
+         (es : list pnlri) (frames : list (list N)),
+    encode_to p c (MReach f nh attrs es) = Ok frames ->
+    Forall attr_wf attrs -> code_not 3 attrs -> code_not 14 attrs -> fam_ok f ->
+    match nh with Some b => blen b < 248 | None => True end ->
+    Forall (labeled vpn (maxbits_of f)) es ->
+    exists ws chunks,
+      wire_attrs (two_byte c) attrs = Ok ws /\
+      concat chunks = es /\
+      Forall2 (reach_frame_labeled_ok c f vpn nh ws (es <> [])) frames chunks.
+Proof.
+  intros p c f vpn nh attrs es frames H Hwf H3 H14 Hfam Hnh Hlab.
+  destruct (C04_reach_frames _ _ _ _ _ _ _ H Hwf H3 H14 Hfam Hnh) as [ws [chunks [Hws [Hc HF]]]].
+  exists ws, chunks. split; [exact Hws|]. split; [exact Hc|].
+  rewrite <- Hc in Hlab. apply Forall_concat_inv in Hlab.
+  eapply Forall2_impl_with; [| exact Hlab | exact HF].
+  intros fr chunk Hpl [v [Hread [Hfam' [Hat [Hnhv [bs [Hbs Hnl]]]]]]].
+  exists v. repeat (split; [assumption|]).
+  destruct (enc_labeled_all _ _ _ _ _ _ Hpl Hbs) as [Hcc Hpok].
+  rewrite Hnl, Hcc. apply read_lprefixes_concat; [assumption | lia].
+Qed.
+
+Example ex_labeled :
+  Forall (labeled true (maxbits_of F_IPV6_VPN)) (bulk 8 300 0) /\
+  exists frames, encode_to Debug (negotiate [CMultiProtocol F_IPV6_VPN] [CMultiProtocol F_IPV6_VPN])
+                   (MReach F_IPV6_VPN (Some (pat_bytes 16 1)) [] (bulk 8 300 0)) = Ok frames /\ (2 <= length frames)%nat.
+Proof.
+  split.
+  - apply Forall_forall. intros e He.
+    assert (Hb : forallb (fun e => (fst e <? 4294967296) &&
+                  match snd e with
+                  | NVpn6 ls rd m a => negb (length ls =? 0)%nat && forallb (fun v => v <? 1048576) ls && (blen rd =? 8) &&
+                                       (m <=? 128) && (24 * blen ls + 64 + m <? 256) && ((m + 7) / 8 <=? blen a)
+                  | _ => false end) (bulk 8 300 0) = true) by (vm_compute; reflexivity).
+    rewrite forallb_forall in Hb. specialize (Hb e He). apply andb_prop in Hb as [Hp Hb]. apply N.ltb_lt in Hp.
+    split; [exact Hp|]. destruct (snd e); try discriminate.
+    repeat (apply andb_prop in Hb as [Hb ?]).
+    split; [reflexivity|]. split; [destruct labels; [discriminate | discriminate]|].
+    split; [apply Forall_forall; intros v Hv; rewrite forallb_forall in H3; apply N.ltb_lt; apply H3; exact Hv|].
+    split; [apply N.eqb_eq; assumption|]. split; [apply N.leb_le; assumption|]. split; [apply N.ltb_lt; assumption | apply N.leb_le; assumption].
+  - eexists. split; [vm_compute; reflexivity | cbn; lia].
+Qed.
